@@ -68,24 +68,11 @@ Definition FirstUnresolved (d : doc) (i j : nat) (n : name) : Prop :=
   forall i' j', before i' j' i j -> ~ UnresolvedAt d i' j'.
 
 (* ------------------------------------------------------------------------- *)
-(* What the crate's walker decides instead (finding kf-c12-socket-rule-defines-base-name):
-   it records the identifier of every rule head WITHOUT its socket prefix, so a
-   rule "$x = ..." or "$$x = ..." makes the plain name x count as defined. *)
-
-Definition DefinedByRuleId (d : doc) (n : name) : Prop := exists r, In r d /\ rid r = n.
-
-Definition UnresolvedC (d : doc) (r : rule) (x : ref) : Prop :=
-  ~ IsSocketRef x /\ ~ DefinedByRuleId d (xid x) /\ ~ In (xid x) rfc_prelude /\ ~ In (xid x) (rparams r).
-
-Definition UnresolvedAtC (d : doc) (i j : nat) : Prop :=
-  exists r x, ref_at d i j r x /\ UnresolvedC d r x.
-
-Definition FirstUnresolvedC (d : doc) (i j : nat) (n : name) : Prop :=
-  (exists r x, ref_at d i j r x /\ UnresolvedC d r x /\ n = xid x) /\
-  forall i' j', before i' j' i j -> ~ UnresolvedAtC d i' j'.
-
-(* the class on which the two notions differ: some reference is resolved ONLY by the
-   identifier of a socket-prefixed rule head *)
+(* A class marker used only for the generator statistics of the correspondence run (it was
+   the classifier of finding kf-c12-socket-rule-defines-base-name, repaired in /repo commit
+   a8c9ab3): some non-socket reference is unresolved although its identifier is the
+   identifier of a socket-prefixed rule head ("$x = .." makes x look defined to a walker
+   that drops the prefix).  No theorem depends on it. *)
 Definition socket_only (d : doc) (n : name) : bool :=
   existsb (fun r => negb (N.eqb (rsock r) 0) && name_eqb (rid r) n) d &&
   negb (existsb (fun r => N.eqb (rsock r) 0 && name_eqb (rid r) n) d).
